@@ -1649,6 +1649,16 @@ class Symex:
                 rec = self._record_fields(fv)
                 if rec is not None:
                     return self._make_record(fv, rec, args, kw, node)
+            if init is not None and fv.short.startswith("_") and init[0].name == "__init__" \
+                    and self.find_method(f"{fv.module.name}:{fv.qual}", "__new__") is None \
+                    and self.inline(f"{fv.module.name}:{fv.qual}.__init__"):
+                # a private helper class (internal state extracted by a refactoring) is not vocabulary:
+                # an abstract record is created and its __init__ evaluated on it
+                self.fresh_n += 1
+                o = Obj(f"{fv.module.name}:{fv.qual}", f"<{fv.short} #{self.fresh_n}>")
+                fn = init[0]
+                self._invoke(Func(fn, [], fn._module, fn._qual, bound=o), args, kw, node)
+                return o
             return self.opaque_call(fv.short, args, kw, init[0] if init else None, skip_self=True)
         if isinstance(fv, Ext):
             return self.ext_call(fv.name, args, kw, node)
@@ -1843,6 +1853,23 @@ class Symex:
             if args[0] is None:
                 return [x for x in self.iterate(args[1], node) if self.truth(x, node)]
             return [x for x in self.iterate(args[1], node) if self.truth(self.call_value(args[0], [x], {}, node))]
+        if short in ("takewhile", "dropwhile", "filterfalse") and name in (short, "itertools." + short) and len(args) == 2 \
+                and not isinstance(args[1], T):
+            out, state = [], short == "dropwhile"
+            for x in self.iterate(args[1], node):
+                ok = self.truth(self.call_value(args[0], [x], {}, node) if args[0] is not None else x, node)
+                if short == "filterfalse":
+                    if not ok:
+                        out.append(x)
+                elif short == "takewhile":
+                    if not ok:
+                        break
+                    out.append(x)
+                else:
+                    state = state and ok
+                    if not state:
+                        out.append(x)
+            return out
         if name == "iter" and len(args) == 1 and not kw:
             # an iterator is a private list that next() / for-loops consume from the front
             return list(self.iterate(args[0], node))
